@@ -67,7 +67,7 @@ def gen_ts(rng):
     return [[ta, tb], [ta + tb, 0.0], [tc, td]]
 
 
-def gen_case(rng, kind, tier, ncodes):
+def gen_case(rng, kind, tier, ncodes, mg94_batched=None):
     c = dict(kind=kind, n=4, B=None, mode="none", mapping=None, code=None)
     if kind in ("GS", "GN", "GeneralJC69"):
         c["n"] = rng.choice([2, 3, 4, 5, 6, 8] if tier == "quick" else [2, 3, 4, 5, 6, 8, 12, 20])
@@ -78,6 +78,8 @@ def gen_case(rng, kind, tier, ncodes):
     has_params = kind in ("HKY", "GTR", "GS", "GN", "MG94")
     if has_params:
         c["B"] = rng.choice([None, None, 1, 2, 3]) if kind != "MG94" else rng.choice([None, 2])
+        if kind == "MG94" and mg94_batched is not None:
+            c["B"] = 2 if mg94_batched else None      # (few codon cases: the layouts alternate instead of being drawn)
         if c["B"]:
             c["mode"] = rng.choice(["all", "all", "all", "rates-only", "freqs-only"])
     else:
@@ -541,8 +543,10 @@ def run(tier, seed, replay=None):
         cases = [json.load(open(replay))["replay"]["case"]]
     else:
         cases = corpus_cases()
+        n_mg = 0
         for kind in schedule(rng, tier):
-            c = gen_case(rng, kind, tier, ncodes)
+            c = gen_case(rng, kind, tier, ncodes, mg94_batched=(n_mg % 2 == 0))
+            n_mg += kind == "MG94"
             try:
                 n = codon_state_count(c["code"]) if kind == "MG94" else c["n"]
             except Exception:
